@@ -173,6 +173,11 @@ def witness(ob, rng, tries=40, box=(0.5, 1.5), fixed=None, nominal=None):
     """Find a concrete point where the obligation's two sides differ numerically and the assumptions hold:
     first the solver's own model, then pseudo-random points (the solver's sat verdict established existence;
     this only selects a well-conditioned witness for replay)."""
+    if ob.level == "poison":  # nothing to evaluate symbolically: any admissible-looking point will do for the replay
+        e = FillEnv({k: v for k, v in (nominal or {}).items()})
+        e.update(free_vars_env([o_ for o_ in [ob] if False], rng))
+        e.update(fixed or {})
+        return e
     cands = []
     menv = oblig.model_env(ob)
     if nominal:
@@ -250,7 +255,7 @@ def run_obligations(rep, group, obs, timeout, replay=None, family=None, lw=None,
         if bad:
             rep.violation(fam, what, {"group": group, "ob": o.id, "meta": _js(o.meta), "env": env, "what": what})
         else:
-            rep.not_reproduced.append({"id": o.id, "why": what})
+            rep.not_reproduced.append({"id": o.id, "why": what, "decided_by": str(o.level)})
     rep.log("%-52s obl=%d nontriv=%d disch=%d cand=%d inconc=%d  %.1fs" % (
         group, s["obligations"], s["nontrivial"], s["discharged"], s["candidate"], s["inconclusive"], time.time() - t0))
     return s
